@@ -226,10 +226,6 @@ Lemma is_report_of_content g about e r :
 Proof.
   intros G1 G2 G3 G4 (u & l & ->). rewrite !fget_fupdate_none by assumption.
   unfold stamp, report_fields. repeat split.
-  - apply fget_fset_same.
-  - rewrite !fget_fset_other by discriminate. apply fget_fset_same.
-  - rewrite !fget_fset_other by discriminate. apply fget_fset_same.
-  - rewrite !fget_fset_other by discriminate. apply fget_fset_same.
 Qed.
 
 Lemma log_report_emits c about s e :
@@ -282,6 +278,9 @@ Proof.
     + rewrite (emits_globals _ _ _ H1) in Prs. now subst errs.
 Qed.
 
+Lemma Forall2_len {A B} (R : A -> B -> Prop) l l' : Forall2 R l l' -> length l = length l'.
+Proof. induction 1; cbn; congruence. Qed.
+
 Lemma send_emits c s m :
   exists rs, emits (fupdate m (globals s) :: rs) s (send c s m) /\
              (any_added s = true -> length rs = n_reports s (fupdate m (globals s))) /\
@@ -290,7 +289,8 @@ Lemma send_emits c s m :
 Proof.
   destruct (send_emits_full c s m) as (rs & H & P). exists rs. split; [exact H|].
   unfold reported, n_reports in *. split; [|split].
-  - intros A. rewrite A in P. apply Forall2_length in P. rewrite <- P. now destruct (is_report _).
+  - intros A. rewrite A in P. apply Forall2_len in P.
+    destruct (is_report _); cbn [length] in P; symmetry; exact P.
   - intros A. rewrite A in P. destruct (is_report _); now inversion P.
   - intros G. clear H. induction P as [|e r errs rs' Hr _ IH]; constructor; [|exact IH].
     eapply is_report_of_rep_msg; eassumption.
